@@ -1,4 +1,5 @@
 import Clikit.Model.Parser
+import Clikit.Model.CommandParse
 /-!
 # C05 - parsing is a pure function of the command line, the format and the mode
 
@@ -47,6 +48,49 @@ theorem history_independent (σ : St) (rs : List Req) :
     rw [ih]
     congr 1
 
+/-! ### Through `Command.parse(args, lenient=None)`
+
+`Model/CommandParse.lean`: `commandParse σ r` is `Command.parse` of a request `r` (optional explicit mode, what the
+command's config answers) on a command whose parser object holds `σ`; the mode handed to the parser is
+`Gen.C05.commandMode`, read from the current source of `Command.parse`. -/
+
+/-- An explicitly given mode is the mode of the parse: whatever the command's configuration says and whatever the
+parser object parsed before, the result is the fresh parse of (tokens, format, that mode). -/
+theorem command_parse_explicit (σ : St) (r : CReq) (b : Bool) (h : r.explicit = some b) :
+    (commandParse σ r).1 = parse r.cv r.fmt b r.tokens := by
+  simp only [commandParse, h, Gen.C05.commandMode]
+  exact parseFrom_result _ _ _ _ _
+
+/-- With the mode omitted the configured leniency is the mode. -/
+theorem command_parse_default (σ : St) (r : CReq) (h : r.explicit = none) :
+    (commandParse σ r).1 = parse r.cv r.fmt r.configured r.tokens := by
+  simp only [commandParse, h, Gen.C05.commandMode]
+  exact parseFrom_result _ _ _ _ _
+
+/-- The configuration switch is invisible to a request with an explicit mode: two requests that differ only in
+what the config answers give the same result, on any two parser states. -/
+theorem command_parse_config_irrelevant (σ σ' : St) (r r' : CReq) (b : Bool)
+    (h : r.explicit = some b) (h' : r'.explicit = some b)
+    (hcv : r'.cv = r.cv) (hf : r'.fmt = r.fmt) (ht : r'.tokens = r.tokens) :
+    (commandParse σ r).1 = (commandParse σ' r').1 := by
+  rw [command_parse_explicit σ r b h, command_parse_explicit σ' r' b h', hcv, hf, ht]
+
+/-- **History independence through commands**: for every sequence of requests to commands sharing one parser object
+- configuration switched on and off in between, modes given or omitted - each request gets the fresh parse of its
+tokens, its format and its mode (the explicit one, else the configured one). -/
+theorem command_history_independent (σ : St) (rs : List CReq) :
+    commandHistory σ rs
+      = rs.map (fun r => parse r.cv r.fmt (r.explicit.getD r.configured) r.tokens) := by
+  induction rs generalizing σ with
+  | nil => rfl
+  | cons r rs ih =>
+    simp only [commandHistory, List.map_cons]
+    rw [ih]
+    congr 1
+    cases h : r.explicit with
+    | none => simpa [h] using command_parse_default σ r h
+    | some b => simpa [h] using command_parse_explicit σ r b h
+
 /-! ### The defect D1 (repaired in /repo by "fix: reset the parsed options…"), kept as a proved
 counterexample against the pre-fix behaviour: without the reset of `_options` the second of two
 requests on one parser differs from a fresh parse. -/
@@ -87,5 +131,19 @@ example : (parseFrom dirty noConv fooFmt false ["y".toList]).1
   rw [parseFrom_result]; rfl
 example : history dirty [⟨noConv, fooFmt, false, ["y".toList]⟩] = [parse noConv fooFmt false ["y".toList]] :=
   history_independent _ _
+
+/-- Non-vacuity of the command theorems: a strict request (`y z`: one positional too many) to a command whose config
+has lenient parsing switched on is rejected exactly like by a fresh strict parser; omitted, the mode is the config's. -/
+example : (commandParse dirty ⟨noConv, fooFmt, some false, true, ["y".toList, "z".toList]⟩).1
+    = parse noConv fooFmt false ["y".toList, "z".toList] :=
+  command_parse_explicit _ _ false rfl
+example : parse noConv fooFmt false ["y".toList, "z".toList] = .error .cannotParse := by rfl
+example : (commandParse dirty ⟨noConv, fooFmt, none, true, ["y".toList, "z".toList]⟩).1
+    = .ok { args := [("a".toList, .scalar (.str "y".toList))], opts := [] } := by
+  rw [command_parse_default _ _ rfl]; rfl
+example : commandHistory dirty [⟨noConv, fooFmt, some false, true, ["y".toList, "z".toList]⟩,
+                                ⟨noConv, fooFmt, none, true, ["y".toList, "z".toList]⟩]
+    = [parse noConv fooFmt false ["y".toList, "z".toList], parse noConv fooFmt true ["y".toList, "z".toList]] :=
+  command_history_independent _ _
 
 end Clikit.Props.C05
